@@ -209,6 +209,8 @@ func authzConfigs(r *rng, n int) []proxyCfg {
 		{Htpasswd: map[string]string{"bob": "hunter2"}, HtpasswdGroups: []string{"staff"}},
 		{EmailDomains: []string{"example.org"}},
 		{AllowedGroups: []string{"qa", "admins"}},
+		{AllowedGroups: []string{"dev"}, CookieRefresh: time.Hour},
+		{AllowedGroups: []string{"ops"}, CookieRefresh: time.Hour, Redis: true},
 		{AllowedGroups: []string{"dev"}, EmailDomains: []string{"example.com"}, Redis: true, SkipJwtBearer: true},
 		{CookieRefresh: time.Hour},
 		{CookieRefresh: time.Hour, Redis: true},
@@ -341,7 +343,7 @@ func splitRule(rule string) (method string, negate bool, re string) {
 
 func init() {
 	registerSuite("e2e-authz", func(c *suiteCtx) {
-		cfgs := authzConfigs(c.rng.fork(), 17+4*(c.scale-1))
+		cfgs := authzConfigs(c.rng.fork(), 19+4*(c.scale-1))
 		u := defaultUser()
 		for ci, cfg := range cfgs {
 			if cfg.InjectRequest == nil {
@@ -357,7 +359,7 @@ func init() {
 			eps := e.endpoints()
 			for _, cr := range creds {
 				for ei, ep := range eps {
-					if c.scale == 1 && ci >= 17 && (ei+ci)%2 == 0 {
+					if c.scale == 1 && ci >= 19 && (ei+ci)%2 == 0 {
 						continue
 					}
 					h := http.Header{}
@@ -416,6 +418,40 @@ func init() {
 					}
 				}
 			}
+			// authorisation is re-evaluated on what a REFRESH returns: a user who lost every allowed group at the identity provider
+			// is refused on the request that refreshes and on every later one
+			if len(cfg.AllowedGroups) > 0 {
+				gone := u
+				gone.Groups = []interface{}{}
+				for _, variant := range []string{"empty-list", "claim-absent"} {
+					if variant == "claim-absent" {
+						gone.Groups = nil
+					}
+					s := e.sessionFor(u, 2*time.Hour)
+					s.Groups = append([]string{}, cfg.AllowedGroups...)
+					s.RefreshToken = fmt.Sprintf("rt-grp-%d-%s-%d", ci, variant, time.Now().UnixNano())
+					e.registerRT(s.RefreshToken, gone)
+					gb := newBrowser()
+					gb.jarFromHeader(e.issueSessionCookie(s))
+					saved := e.opts.Cookie.Refresh
+					if saved == 0 {
+						continue // no refresh configured: the stored groups stay in force by design
+					}
+					r1 := e.do(reqSpec{Target: "/app/page", Cookie: gb.cookieHeader()})
+					if r1.raw != nil {
+						gb.apply(r1.raw)
+					}
+					r2 := e.do(reqSpec{Target: "/app/page", Cookie: gb.cookieHeader()})
+					c.casen(fmt.Sprintf("c01|groups-lost|%d|%s", ci, variant), fmt.Sprintf("%d/%d", r1.Status, r2.Status))
+					c.count("c01:groups-lost-on-refresh")
+					for i, r := range []*respView{r1, r2} {
+						if len(r.Hits) > 0 {
+							c.violation("C01", "a request was forwarded upstream after a refresh whose ID token no longer carries any allowed group",
+								map[string]interface{}{"request": []string{"the refreshing request", "the next request"}[i], "groups_in_refreshed_token": variant, "allowed_groups": cfg.AllowedGroups, "status": r.Status, "cfg": fmt.Sprintf("%+v", cfg)})
+						}
+					}
+				}
+			}
 			// a signed-out session is no credential: with a server-side store and a refresh between login and sign-out, no
 			// cookie the browser ever held is honoured after the sign-out answered with its success redirect
 			if cfg.Redis && (ci < 12 || cfg.CookieRefresh > 0) {
@@ -452,7 +488,7 @@ func init() {
 			}
 			e.close()
 		}
-		c.close([]string{"c01:no-email-login", "c01:signed-out-replay", "cred:valid", "cred:tampered", "cred:none", "c01:forwarded", "c01:refused", "kind:upstream", "kind:signInPage", "kind:accepted", "kind:userInfo"})
+		c.close([]string{"c01:no-email-login", "c01:signed-out-replay", "c01:groups-lost-on-refresh", "cred:valid", "cred:tampered", "cred:none", "c01:forwarded", "c01:refused", "kind:upstream", "kind:signInPage", "kind:accepted", "kind:userInfo"})
 	})
 }
 
